@@ -7,9 +7,14 @@ package main
 import (
 	"bytes"
 	"fmt"
+	"go/ast"
+	"go/parser"
+	"go/token"
+	"os"
 	"path/filepath"
 	"reflect"
 	"sort"
+	"strconv"
 	"strings"
 
 	"github.com/xelaj/mtproto/internal/encoding/tl"
@@ -85,6 +90,7 @@ func main() {
 	}
 	c.cur = api
 	c.wrappers()
+	c.handWritten(filepath.Join(repo, "telegram"))
 	run.Set("programs", defs)
 	run.Set("disagreements_checked", run.Evals())
 	run.Set("definitions", map[string]int{"api_latest.tl": len(api.All), "mtproto.tl(with id)": len(svc.ByID)})
@@ -313,6 +319,92 @@ func kindIs(gt reflect.Type, k reflect.Kind) string {
 		return ""
 	}
 	return "want kind " + k.String()
+}
+
+// handWritten reads the hand-written sources of package telegram (everything that is not *_gen.go): every type
+// there that declares its own constructor id (a CRC method returning a literal) and is named after a schema
+// definition (Name or NameParams) must carry that definition's id and have one field per parameter; no two of
+// them may carry one id. These types are not registered with the decoder, so the registry does not show them.
+func (c *checker) handWritten(dir string) {
+	fset := token.NewFileSet()
+	pkgs, err := parser.ParseDir(fset, dir, func(fi os.FileInfo) bool {
+		return !strings.HasSuffix(fi.Name(), "_gen.go") && !strings.HasSuffix(fi.Name(), "_test.go")
+	}, 0)
+	if err != nil {
+		vr.HarnessError("parsing %s: %v", dir, err)
+	}
+	fields := map[string]int{}
+	ids := map[string]uint32{}
+	for _, pkg := range pkgs {
+		for _, f := range pkg.Files {
+			for _, dcl := range f.Decls {
+				switch v := dcl.(type) {
+				case *ast.GenDecl:
+					for _, sp := range v.Specs {
+						if ts, ok := sp.(*ast.TypeSpec); ok {
+							if st, ok := ts.Type.(*ast.StructType); ok {
+								n := 0
+								for _, fl := range st.Fields.List {
+									n += max(1, len(fl.Names))
+								}
+								fields[ts.Name.Name] = n
+							}
+						}
+					}
+				case *ast.FuncDecl:
+					if v.Name.Name != "CRC" || v.Recv == nil || len(v.Recv.List) != 1 || v.Body == nil || len(v.Body.List) != 1 {
+						continue
+					}
+					rt := v.Recv.List[0].Type
+					if se, ok := rt.(*ast.StarExpr); ok {
+						rt = se.X
+					}
+					id, ok := rt.(*ast.Ident)
+					ret, ok2 := v.Body.List[0].(*ast.ReturnStmt)
+					if !ok || !ok2 || len(ret.Results) != 1 {
+						continue
+					}
+					lit, ok := ret.Results[0].(*ast.BasicLit)
+					if !ok {
+						continue
+					}
+					n, err := strconv.ParseUint(lit.Value, 0, 32)
+					if err == nil {
+						ids[id.Name] = uint32(n)
+					}
+				}
+			}
+		}
+	}
+	byID := map[uint32]string{}
+	names := make([]string, 0, len(ids))
+	for n := range ids {
+		names = append(names, n)
+	}
+	sort.Strings(names)
+	matched := 0
+	for _, goName := range names {
+		id := ids[goName]
+		if o, dup := byID[id]; dup {
+			c.run.Violation("hand-written|two-types-one-id|"+o+"+"+goName, fmt.Sprintf("hand-written types %s and %s both carry id %08x", o, goName, id), nil)
+		}
+		byID[id] = goName
+		base := strings.TrimSuffix(goName, "Params")
+		d, ok := c.sch.ByName[strings.ToLower(base[:1])+base[1:]]
+		if !ok {
+			continue
+		}
+		matched++
+		c.run.Eval("hand-written|"+goName, true)
+		if id != d.ID {
+			c.bad(d, "hand-written-id|"+goName, fmt.Sprintf("%s carries id %08x, the schema gives %s#%08x", goName, id, d.Name, d.ID))
+		}
+		if nf, ok := fields[goName]; ok && nf != len(d.NonFlagParams()) {
+			c.bad(d, "hand-written-field-count|"+goName, fmt.Sprintf("%s has %d fields, the schema line has %d parameters", goName, nf, len(d.NonFlagParams())))
+		}
+	}
+	c.run.Set("hand_written_types_with_their_own_id", len(ids))
+	c.run.Set("hand_written_types_named_after_a_schema_line", matched)
 }
 
 // wrappers: the hand-written generic request wrappers against their schema lines.
